@@ -13,6 +13,7 @@ import OFV.Proofs.C18Partition
 import OFV.Proofs.C18Pauli
 import OFV.Proofs.C18Async
 import OFV.Proofs.C18Pws4
+import OFV.Proofs.C18Pws5
 
 namespace OFV.C18
 open OFV.Model.C18 OFV.Spec.C18 OFV.Proofs.C18
@@ -113,8 +114,7 @@ stage of the next level: all combinations of rounds of two sibling parts occur, 
 `_gen_pairings_between_partitions` combines a round of a half with all cross pairs of the other
 halves — going down one level while the three labels stay in one half), or they stay together and the
 argument repeats one level down.
-Also part of the Spec predicate `quadsCovered` and still open: every yield is a partial matching
-(`pws_valid`), and the binned / symmetric variants. -/
+The binned / symmetric variants are still open. -/
 theorem pws_covers (labels : List L) (hl : labels.Nodup) (hn : none ∉ labels) (a b c d : L)
     (hnd : [a, b, c, d].Nodup) (hmem : ∀ s ∈ [a, b, c, d], s ∈ labels) :
     quadOk (pairWithinSimultaneously labels) a b c d = true :=
@@ -122,6 +122,16 @@ theorem pws_covers (labels : List L) (hl : labels.Nodup) (hn : none ∉ labels) 
 
 example : quadOk (pairWithinSimultaneously ((List.range 9).map some)) (some 0) (some 3) (some 5) (some 8) = true :=
   pws_covers _ (by decide) (by decide) _ _ _ _ (by decide) (by decide)
+
+/-- `pair_within_simultaneously`, the full Spec predicate the oracle evaluates (one bin), every number
+of labels: every yield uses no label twice and only given labels (in fact every yield is a perfect
+matching of *all* labels: pairs plus bare labels), and every four labels have a co-scheduled split. -/
+theorem pws_spec (labels : List L) (hl : labels.Nodup) (hn : none ∉ labels) :
+    quadsCovered [labels] (pairWithinSimultaneously labels) = true :=
+  OFV.Proofs.C18Pws.pws_spec labels hl hn
+
+example : quadsCovered [(List.range 7).map some] (pairWithinSimultaneously ((List.range 7).map some)) = true :=
+  pws_spec _ (by decide) (by decide)
 
 /-- `_asynchronous_iter`, padded (general) branch, any number of iterators of any lengths: any two
 results of two different iterators occur together in some yield.  The index pattern `(j·k + l) mod L'`
